@@ -151,10 +151,22 @@ structure CatSrc where
   dropZero : Bool       -- `compile` drops instructions of zero duration
 deriving DecidableEq, Repr
 
+/-- `Instruction.__init__` on a sampled `tlist` as the source has it: `abs(tlist[0]) t0Cmp t0Tol` raises ValueError; with
+`shift` an accepted sequence whose first entry is not 0 is replaced by `tlist - tlist[0]` (fixes/C12-6.patch);
+`duration = durLast * tlist[-1] + durFirst * tlist[0]` (the code: `tlist[-1]`). -/
+structure InstrSrc where
+  t0Cmp : Cmp
+  t0Tol : Rat
+  shift : Bool
+  durLast : Rat
+  durFirst : Rat
+deriving DecidableEq, Repr
+
 structure Src where
   proc : ProcSrc
   idle : IdleSrc
   cat : CatSrc
+  instr : InstrSrc
 deriving DecidableEq, Repr
 
 /-- the tolerances of the source multiplied by `k` (the harness probes `k = 1 ± 2^-20` to find the cases in which a
@@ -262,9 +274,56 @@ def compileWith (dropZero : Bool)
       | .error e => some (.error e)
       | .ok outs => some (.ok (some ((groups.map (·.1)).zip outs)))
 
-def compileS (src : Src) : List Instr → Option (List Rat × List Nat) →
+/-- `Instruction(gate, tlist, pulse_info)`: the instruction as stored and its `duration`; `none` = ValueError -/
+def InstrSrc.init (s : InstrSrc) (i : Instr) : Option (Instr × Rat) :=
+  match i.tl with
+  | .scalar t => some (i, t)
+  | .arr tl =>
+    let t0 := tl.head?.getD 0
+    if s.t0Cmp.test (absR t0) s.t0Tol then none else
+    let tl' := if s.shift && t0 != 0 then tl.map (· - t0) else tl
+    some ({ i with tl := .arr tl' }, s.durLast * tl'.getLast?.getD 0 + s.durFirst * tl'.head?.getD 0)
+
+def initAll (s : InstrSrc) : List Instr → Option (List (Instr × Rat))
+  | [] => some []
+  | i :: is =>
+    match s.init i, initAll s is with
+    | some a, some as => some (a :: as)
+    | _, _ => none
+
+/-- start times without scheduling from the recorded durations -/
+def cumStartsD : Rat → List (Instr × Rat) → List Rat
+  | _, [] => []
+  | acc, (_, d) :: rest => acc :: cumStartsD (acc + d) rest
+
+/-- `_schedule` on instructions with their recorded durations -/
+def scheduleD (ids : List (Instr × Rat)) : Option (List Rat × List Nat) → Except Err (List Instr × List Rat)
+  | none => .ok (ids.map (·.1), cumStartsD 0 ids)
+  | some sp => schedule (ids.map (·.1)) (some sp)
+
+/-- `GateCompiler.compile` on constructed instructions `(instruction, duration)` -/
+def compileD (dropZero : Bool)
+    (cat : List (List (Rat × Wave)) → Except Err (List (Option (List Rat × List Rat))))
+    (ids0 : List (Instr × Rat)) (sch : Option (List Rat × List Nat)) :
     Option (Except Err (Option (List (Nat × Option (List Rat × List Rat))))) :=
-  compileWith src.cat.dropZero (concatenateS src)
+  let ids := if dropZero then ids0.filter (fun id => id.2 != 0) else ids0
+  if ids.isEmpty then some (.ok none) else
+  match scheduleD ids sch with
+  | .error e => some (.error e)
+  | .ok (is, starts) =>
+    match groupPulses (is.zip starts) [] with
+    | none => none
+    | some groups =>
+      match cat (groups.map (·.2)) with
+      | .error e => some (.error e)
+      | .ok outs => some (.ok (some ((groups.map (·.1)).zip outs)))
+
+/-- `GateCompiler.compile` as the source has it, from the arguments the gate compilers hand to `Instruction` -/
+def compileS (src : Src) (instrs0 : List Instr) (sch : Option (List Rat × List Nat)) :
+    Option (Except Err (Option (List (Nat × Option (List Rat × List Rat))))) :=
+  match initAll src.instr instrs0 with
+  | none => some (.error .t0)
+  | some ids => compileD src.cat.dropZero (concatenateS src) ids sch
 
 /-! ## The fixed-shape model with an absolute idle-gap threshold (what the theorems are about) -/
 
@@ -301,5 +360,11 @@ def Src.Standard (s : Src) : Prop :=
   s.cat.emptyOk = true ∧ s.cat.padCmp = .gt ∧ s.cat.padTolStep = .min ∧ s.cat.padStep = .min
 
 instance (s : Src) : Decidable s.Standard := by unfold Src.Standard; infer_instance
+
+/-- `Instruction.__init__` has the shape the theorems are about: a first entry is refused by `abs(tlist[0]) > t0Tol`, the
+duration of a sampled instruction is `tlist[-1]` -/
+def InstrSrc.Standard (s : InstrSrc) : Prop := s.t0Cmp = .gt ∧ s.durLast = 1 ∧ s.durFirst = 0
+
+instance (s : InstrSrc) : Decidable s.Standard := by unfold InstrSrc.Standard; infer_instance
 
 end QipVerif.Concat
